@@ -23,6 +23,9 @@ type Operand struct {
 	// Fixed: value is structural (shape/axes/indices operand); rebinding it as a caller input is
 	// allowed but its value must stay the same across input sets.
 	Fixed bool
+	// DynSpatial: when bound as a graph input, every axis from 2 on is declared dynamic as well (images and sequences
+	// of varying size); the input sets then differ in those extents.
+	DynSpatial bool
 	// NoShape: when bound as a graph input, the input is declared with an element type but without a shape
 	// (rank-polymorphic graphs); the input sets then differ in rank.
 	NoShape bool
@@ -405,7 +408,18 @@ func Templates() []Template {
 			}
 			attrs = append(attrs, mb.AInts("kernel_shape", ks...))
 		}
-		ops := []Operand{data(x, 0), weight(k)}
+		xo := data(x, 0)
+		if x.Shape[2] <= 8 && rw.Chance(1, 5) {
+			// dynamic spatial axes: this input set is as large as the kernel, or a little larger (the extent at which
+			// "the kernel covers the whole input" paths start and stop applying)
+			sh := append([]int{}, x.Shape...)
+			for i := 2; i < len(sh); i++ {
+				sh[i] = k.Shape[i] + []int{0, 0, 1, 3}[rd.Intn(4)]
+			}
+			xo = data(RandF32(rd, sh, -2, 2), 0)
+			xo.DynSpatial = true
+		}
+		ops := []Operand{xo, weight(k)}
 		if rw.Chance(3, 4) {
 			ops = append(ops, weight(RandF32(rw, []int{cout}, -1, 1)))
 		}
